@@ -70,6 +70,7 @@ class OffsetDateTime {
      */
     static OffsetDateTime forEpochSeconds(acetime_t epochSeconds,
           TimeOffset timeOffset) {
+      if (timeOffset.isError()) return forError();
       if (epochSeconds != LocalDate::kInvalidEpochSeconds) {
         epochSeconds += timeOffset.toSeconds();
       }
